@@ -45,6 +45,11 @@ class Ctx:
 def run_property(prop, tier):
     t0 = time.time()
     mod = importlib.import_module("rules.p_%s" % prop.lower())
+    if getattr(mod, "DEFERRED_BUNDLES", None) and not getattr(mod, "_bundles_resolved", False):
+        from .share import bundle
+        for spec in mod.DEFERRED_BUNDLES:
+            mod.RULES += bundle(spec["prop"], spec["tag"], spec["module"], only=spec.get("only"), skip=spec.get("skip", ()), why=spec.get("why", ""))
+        mod._bundles_resolved = True
     recorders = []
     try:
         fdir = engine.extract()
